@@ -64,9 +64,9 @@ def execute(case):
         got = ["N", []]
         isnew = False
         if exc is None:
-            from urllib.parse import quote
-            isnew, _ = guarded(lambda: get_query_argument(u, quote(key)) is None)
-            g, exc = guarded(get_query_argument, r, quote(key))
+            # read back with the key as the caller wrote it (add_query_argument quotes it in the URL)
+            isnew, _ = guarded(lambda: get_query_argument(u, key) is None)
+            g, exc = guarded(get_query_argument, r, key)
             got = ["T", []] if g is True else ["N", []] if g is None else ["s", enc(g)]
         return {"id": case["id"], "kind": kind, "u": case["u"], "key": case["key"], "v": case["v"], "r": E(r), "got": got,
                 "isnew": bool(isnew), "exc": exc or ""}
